@@ -8,8 +8,11 @@ import (
 	"github.com/anz-bank/sysl/pkg/zzverif/nd"
 )
 
-// c05RefIndex: independent statement of the canonical index: backslashes are
-// slashes, and everything from the first '@' on is a version suffix.
+// c05RefIndex: independent statement of the canonical index: backslashes are slashes,
+// everything from the first '@' on is a version suffix, and a local name (one that does not
+// start with "//") is reduced to its segments: empty and "." segments vanish, ".." cancels
+// the segment before it (and vanishes at the root of a rooted name), a leading "/" means
+// the project root like no "/" at all; nothing left is ".".
 func c05RefIndex(f string) string {
 	out := ""
 	for i := 0; i < len(f); i++ {
@@ -22,7 +25,45 @@ func c05RefIndex(f string) string {
 			out += f[i : i+1]
 		}
 	}
-	return out
+	if len(out) >= 2 && out[:2] == "//" {
+		return out
+	}
+	rooted := len(out) > 0 && out[0] == '/'
+	var st []string
+	seg := ""
+	flush := func() {
+		switch seg {
+		case "", ".":
+		case "..":
+			if len(st) > 0 && st[len(st)-1] != ".." {
+				st = st[:len(st)-1]
+			} else if !rooted {
+				st = append(st, "..")
+			}
+		default:
+			st = append(st, seg)
+		}
+		seg = ""
+	}
+	for i := 0; i < len(out); i++ {
+		if out[i] == '/' {
+			flush()
+		} else {
+			seg += out[i : i+1]
+		}
+	}
+	flush()
+	res := ""
+	for i, x := range st {
+		if i > 0 {
+			res += "/"
+		}
+		res += x
+	}
+	if res == "" {
+		return "."
+	}
+	return res
 }
 
 func Harness_C05_Index() {
@@ -89,6 +130,7 @@ func c05N() int {
 // flattenSpecs returns exactly the reference depth-first pre-order with
 // first-visit de-duplication; every retrieved file reachable through retrieved
 // files appears once; absent files (cut by the depth limit) are skipped.
+//
 //verif:shard-quick 16 8
 //verif:shard-thorough 16 10
 func Harness_C05_Flatten() {
